@@ -55,10 +55,10 @@ MC = {
     "C06": dict(keys=[K1], vals=["61", "6262", ""], flags=["0", "7"], ttls=[0, 1], cas=["0", "1"], ticks=[1],
                 ops=["get", "set", "add", "replace", "append", "prepend", "delete", "flush"], depth=4,
                 thorough=dict(depth=5, keys=[K1, K2])),
-    "C07": dict(keys=[K1], vals=["30", "39", "78", "2b31", "", "3130"], flags=["0", "7"], ttls=[0, 1], cas=["0", "2"],
+    "C07": dict(keys=[K1], vals=["30", "39", "78", "2b31", "", "3130", "303039"], flags=["0", "7"], ttls=[0, 1], cas=["0", "2"],
                 deltas=["0", "1", "9"], inits=["0", "9"], ticks=[1],
                 ops=["get", "set", "incr", "decr"], depth=3,
-                thorough=dict(depth=4, ops=["get", "set", "incr", "decr", "append", "delete"])),
+                thorough=dict(depth=4, ops=["get", "set", "incr", "decr", "append", "prepend", "delete"])),
     "C08": dict(keys=[K1, K2], vals=["61"], ttls=[0, 1, 2], cas=["0", "1", "2"], ticks=[1, 2, 3],
                 ops=["get", "set", "delete", "flush"], depth=4,
                 thorough=dict(depth=5, ops=["get", "set", "add", "delete", "flush"])),
@@ -203,7 +203,7 @@ def classify(pid, results, findings):
     return out, known
 
 
-def run(pid, tier, seed, replay=None):
+def run(pid, tier, seed, replay=None, extra=None):
     t0 = time.time()
     findings = load_findings()
     build_s = build_harness()
@@ -289,6 +289,9 @@ def run(pid, tier, seed, replay=None):
         replays.append(path)
         log("VIOLATION property=%s replay=%s" % (pid, path))
         log("  rule %s at event: %s" % (v["rule"], seqlib.slim(ctx["event"])[:300]))
+    extra_bad, extra_cov = (0, {})
+    if extra and not replay:
+        extra_bad, extra_cov = extra(pid, tier, seed)
     events = sum(r.get("lines", 0) for r in results)
     hists = sum(r.get("histories", 0) for r in results)
     samples = []
@@ -319,5 +322,6 @@ def run(pid, tier, seed, replay=None):
         "checker_cmd": "tlc MC_Store (refinement, -coverage 1); tlc MemcTrace / MemcStoreTrace over recorded NDJSON",
         "harness_build_s": round(build_s, 1),
     }
-    write_evidence(pid, tier, seed, coverage, ASSUMPTIONS, time.time() - t0, len(bad))
-    return 1 if bad else 0
+    coverage.update(extra_cov)
+    write_evidence(pid, tier, seed, coverage, ASSUMPTIONS, time.time() - t0, len(bad) + extra_bad)
+    return 1 if (bad or extra_bad) else 0
